@@ -8,12 +8,13 @@ package llrp
 //
 //   enc <tree>        -> ok <hex> | err | panic
 //   dec <cid> <hex>   -> ok <tree> | alias <tree after the input buffer was overwritten> | err | panic
-//   rt <tree>         -> ok|alias|encalias|pmarshal <hex> <tree-after-decode> <hex-after-reencode> | err | panic
+//   rt <tree>         -> ok|alias|shared|encalias|pmarshal <hex> <tree-after-decode> <hex-after-reencode> | err | panic
 //                        (values, not views: the decoder's input buffer is overwritten BEFORE the decoded value is printed and
 //                        re-encoded, `alias` = the decoded value changed with it; the encoder's returned bytes are overwritten and the
 //                        value encoded again, `encalias` = the value or its later encoding changed, or a later Marshal changed bytes
-//                        returned earlier; `pmarshal` = a parameter's exported MarshalBinary is not its encoding minus the header)
-//   seq <tree1>;<tree2> -> ok <tree1 after>\t<tree2> | encalias | err | panic   (both encodings decoded one after the other through ONE buffer)
+//                        returned earlier; `shared` = the same bytes decoded again share memory with the first decoded value or with library
+//                        state: after the first value was edited in place the second, or a third decode, no longer prints the same; `pmarshal` = a parameter's exported MarshalBinary is not its encoding minus the header)
+//   seq <tree1>;<tree2> -> ok|shared <tree1 after>\t<tree2> | encalias | err | panic   (both encodings decoded one after the other through ONE buffer)
 //   dinto <tree0>;<tree> -> ok <tree of the receiver> | err | panic     (UnmarshalBinary of tree's encoding into a receiver holding tree0)
 //   json <tree>       -> ok <tree-after-json-roundtrip> | err | panic
 //   tojson <tree>     -> ok <hex of the text json.Marshal produces, verbatim> | err | panic
@@ -841,6 +842,69 @@ func vScribble(b []byte) {
 	}
 }
 
+// vMutateAll edits a value in place the way a consumer may edit ITS decoded message: every number is complemented, every bool
+// toggled, every element of every slice (bytes, numbers, sub-parameters) and everything behind every pointer likewise; no slice
+// is re-allocated and no pointer replaced, so whoever shares memory with the value sees the edit.
+func vMutateAll(rv reflect.Value) {
+	switch rv.Kind() {
+	case reflect.Bool:
+		if rv.CanSet() {
+			rv.SetBool(!rv.Bool())
+		}
+	case reflect.Uint8, reflect.Uint16, reflect.Uint32, reflect.Uint64, reflect.Uint:
+		if rv.CanSet() {
+			rv.SetUint(^rv.Uint())
+		}
+	case reflect.Int8, reflect.Int16, reflect.Int32, reflect.Int64, reflect.Int:
+		if rv.CanSet() {
+			rv.SetInt(^rv.Int())
+		}
+	case reflect.Struct:
+		for i := 0; i < rv.NumField(); i++ {
+			vMutateAll(rv.Field(i))
+		}
+	case reflect.Slice:
+		for i := 0; i < rv.Len(); i++ {
+			vMutateAll(rv.Index(i))
+		}
+	case reflect.Ptr:
+		if !rv.IsNil() {
+			vMutateAll(rv.Elem())
+		}
+	}
+}
+
+// vShared: decoded values own their memory — they share it neither with each other nor with anything the library keeps.
+// `first` was decoded from `data` and printed as `want`. The same bytes are decoded again, `first` is then edited in place
+// (vMutateAll), and the same bytes are decoded a third time: the second value must still print as `want`, and so must the third.
+// -> "" or the tree that differs
+func (r *vreg) vShared(c *vcont, data []byte, first reflect.Value, want string) (string, error) {
+	second, _, err := r.vDecodeBuf(c, data)
+	if err != nil {
+		return "", err
+	}
+	vMutateAll(first.Elem())
+	t2, err := r.toTree(c, second)
+	if err != nil {
+		return "", err
+	}
+	if t2 != want {
+		return t2, nil
+	}
+	third, _, err := r.vDecodeBuf(c, data)
+	if err != nil {
+		return "", err
+	}
+	t3, err := r.toTree(c, third)
+	if err != nil {
+		return "", err
+	}
+	if t3 != want {
+		return t3, nil
+	}
+	return "", nil
+}
+
 // vMarshalOwn: the exported MarshalBinary (messages: the payload; parameters: the encoding without its header)
 func vMarshalOwn(p reflect.Value) ([]byte, error) {
 	m, ok := p.Interface().(encoding.BinaryMarshaler)
@@ -916,6 +980,13 @@ func (r *vreg) handle(line string) (ans string) {
 		if tree2 != tree {
 			return "alias " + tree2
 		}
+		bad, err := r.vShared(c, data, p, tree)
+		if err != nil {
+			return fail(err)
+		}
+		if bad != "" {
+			return "shared " + bad
+		}
 		return "ok " + tree
 	case "rt":
 		c, p, err := r.fromTree(rest)
@@ -931,6 +1002,7 @@ func (r *vreg) handle(line string) (ans string) {
 			return fail(err)
 		}
 		h1 := hex.EncodeToString(b1)
+		pristine := append([]byte(nil), b1...)
 		own1, err := vMarshalOwn(p)
 		if err != nil {
 			return fail(err)
@@ -999,6 +1071,16 @@ func (r *vreg) handle(line string) (ans string) {
 			}
 			if tp != t0 || hex.EncodeToString(b3) != h1 || hex.EncodeToString(own3) != ho1 {
 				st = "encalias"
+			}
+		}
+		if st == "ok" {
+			// values own their memory: a second decode of the same bytes, the first value edited in place, a third decode
+			bad, err := r.vShared(c, pristine, q, tree)
+			if err != nil {
+				return fail(err)
+			}
+			if bad != "" {
+				st, tree = "shared", bad
 			}
 		}
 		return st + " " + h1 + " " + tree + " " + h2
@@ -1072,6 +1154,29 @@ func (r *vreg) handle(line string) (ans string) {
 		tb, err := r.toTree(c2, q2)
 		if err != nil {
 			return fail(err)
+		}
+		if ta == strings.TrimSpace(it[0]) && tb == strings.TrimSpace(it[1]) {
+			// the consumer of the first message edits it in place: the second message, already decoded, and a fresh decode of the
+			// second encoding must not change with it
+			vMutateAll(q1.Elem())
+			tb2, err := r.toTree(c2, q2)
+			if err != nil {
+				return fail(err)
+			}
+			q3 := reflect.New(c2.T)
+			if err := q3.Interface().(encoding.BinaryUnmarshaler).UnmarshalBinary(append([]byte(nil), body2...)); err != nil {
+				return fail(err)
+			}
+			tb3, err := r.toTree(c2, q3)
+			if err != nil {
+				return fail(err)
+			}
+			if tb2 != tb {
+				return "shared " + ta + "\t" + tb2
+			}
+			if tb3 != tb {
+				return "shared " + ta + "\t" + tb3
+			}
 		}
 		return "ok " + ta + "\t" + tb
 	case "json":
